@@ -17,7 +17,7 @@ phaseA() {
   echo "tests[fail=$fails] demo-with[$dw] demo-without[$dwo]" > /tmp/seed-out/$id.A
 }
 export -f phaseA; export suf
-echo $ids | tr ' ' '\n' | xargs -P 4 -I{} bash -c 'phaseA {}'
+echo $ids | tr ' ' '\n' | xargs -P ${PAR:-4} -I{} bash -c 'phaseA {}'
 for i in $ids; do
   id=$i-$suf; out=/tmp/seed-out/$id
   [ -f $out/patch.diff ] || { echo "$id: no patch yet"; continue; }
